@@ -78,6 +78,9 @@ int main(int argc, char** argv) {
         for (size_t n = 1; n <= hl; n++) one(img, hl, n, 0xA5);
         one(img, hl, hl + 1, 0x00);
         one(img, hl, hl + 1, 0xFF);
+        /* more bytes behind the head than it needs: the result may not depend on them nor on how many there are */
+        static const size_t more[] = {2, 3, 4, 7, 8, 9, 15, 16, 17, 64};
+        for (size_t mi = 0; mi < (str ? 0 : 10); mi++) one(img, hl, hl + more[mi], (unsigned char)(0x11 * (mi + 1)));
       } else {
         one(img, hl, hl, 0xA5);
         one(img, hl, hl - 1, 0xA5);
@@ -90,6 +93,7 @@ int main(int argc, char** argv) {
           if (full > hl + 1) one(img, hl, full - 1, 0x5A);
           one(img, hl, full, 0x5A);
           one(img, hl, full + 1, 0x5A);
+          if (dense) { one(img, hl, full + 8, 0x3C); one(img, hl, full + 9, 0xC3); one(img, hl, full + 33, 0x77); }
           if (dense && full > hl + 2) one(img, hl, hl + (full - hl) / 2, 0x5A);
         } else {
           one(img, hl, hl + 7, 0x5A);
